@@ -461,7 +461,11 @@ fn subsets(n: usize, k: usize) -> Vec<Vec<usize>> {
 
 pub fn cases(tier: Tier) -> Vec<Case> {
     let mut out = Vec::new();
-    for (nv, k) in [(5u32, 4usize), (6, tier.pick(3, 4))] {
+    let mut plan = vec![(5u32, 4usize), (6, tier.pick(4, 5))];
+    if tier == Tier::Thorough {
+        plan.push((7, 3));
+    }
+    for (nv, k) in plan {
         let tris = oriented_tris(nv);
         for sub in subsets(tris.len(), k) {
             let mut c = blank("faces");
@@ -508,7 +512,7 @@ pub fn cases(tier: Tier) -> Vec<Case> {
         }
     }
     let np = pairs.len();
-    for len in 1..=tier.pick(3, 4) {
+    for len in 1..=4 {
         for code in 0..np.pow(len as u32) {
             let mut c = code;
             let mut list = Vec::new();
@@ -542,8 +546,8 @@ pub fn cases(tier: Tier) -> Vec<Case> {
 
 pub fn run(tier: Tier) -> i32 {
     let mut cx = Ctx::new("C12", tier, "model_checking");
-    cx.rule = "inputs: every list of <= 4 oriented triangles over 5 vertices and <= 3 (thorough: 4) over 6 vertices (all small disks, fans, bow-ties, pillows, flipped and non-manifold configurations), 10 structured meshes each also with every single face flipped, every subset of <= 5 cells of a 2x2x3 voxel block, every ordered list of <= 3 (thorough: 4) directed pairs over 5 indices, box and cylinder generators; environment: for every mesh / voxel set all hash-map and hash-set traversal orders are choice points answered by the explorer (all permutations up to 4 elements, rotations and reversals beyond), explored exhaustively up to 2 departures from the default order; termination decided by tick budgets 10*3F+100. distinct = distinct inputs".into();
-    cx.bounds = json!({"max_deviations": MAX_DEV, "execution_cap_per_input": EXEC_CAP, "faces_v5": 4, "faces_v6": tier.pick(3, 4), "pair_list_len": tier.pick(3, 4)});
+    cx.rule = "inputs: every list of <= 4 oriented triangles over 5 vertices and <= 4 (thorough: 5) over 6 vertices (thorough: also <= 3 over 7) (all small disks, fans, bow-ties, pillows, flipped and non-manifold configurations), 10 structured meshes each also with every single face flipped, every subset of <= 5 cells of a 2x2x3 voxel block, every ordered list of <= 4 directed pairs over 5 indices, box and cylinder generators; environment: for every mesh / voxel set all hash-map and hash-set traversal orders are choice points answered by the explorer (all permutations up to 4 elements, rotations and reversals beyond), explored exhaustively up to 2 departures from the default order; termination decided by tick budgets 10*3F+100. distinct = distinct inputs".into();
+    cx.bounds = json!({"max_deviations": MAX_DEV, "execution_cap_per_input": EXEC_CAP, "faces_v5": 4, "faces_v6": tier.pick(4, 5), "faces_v7": tier.pick(0, 3), "pair_list_len": 4});
     cx.require(&["edge shared by more than two faces", "closed mesh", "mesh with boundary", "inconsistent winding", "vertex with more than two boundary edges", "structured mesh", "structured mesh with one face flipped", "voxel set with several clusters", "voxel set with one cluster", "path or cycle input", "branching input", "box generator", "cylinder generator"]);
     cx.assume("iteration orders beyond 4 elements are represented by rotations and reversals of the sorted order; at most 2 non-default traversals per execution");
     let cs = cases(tier);
